@@ -475,6 +475,10 @@ impl Decoder {
             let key_slice = t!(Aes256CbcDec::new(&intermediate_key, zero_iv)
                 .decrypt_padded_mut::<NoPadding>(&mut wrapped_key)
                 .map_err(|_| PdfError::InvalidPassword));
+            // Algorithm 2.A: the result is the 32-byte file encryption key
+            if key_slice.len() != 32 {
+                err!(other!("the file encryption key unwrapped from UE/OE should have a length of 32 bytes, not {}", key_slice.len()));
+            }
 
             let decoder = Decoder::new(key_slice.into(),  32, method, encrypt_metadata);
             Ok(decoder)
